@@ -58,6 +58,19 @@ var c04 = gen.Register(&gen.Check[caseC04]{
 			{P: pt.Spec{Base: pt.Base{Kind: "g", Neg: true}, Steps: []pt.Step{{Op: "dblsub"}}}},
 			{P: pt.Spec{Base: pt.Base{Kind: "kg", K: 7}, Steps: []pt.Step{{Op: "rescale", A: "ffffffffffffffffffffffffffffffffffffffffffffffffffffffffefffffc2e"}}}},
 		}
+		// points whose x^3 + 7 (what the decoders compute and take the square root of), as Montgomery limbs, sits just below p, at
+		// word boundaries, or at a dictionary value
+		rhsTargets := []*big.Int{}
+		for _, j := range []int64{1, 2, 3, 50, 977, 1000, 4096, 10000, 30000, 44000, 45001, 65535, 65537, 1 << 20, 1 << 31, 1<<32 + 976, 1<<32 + 978, 1 << 33} {
+			rhsTargets = append(rhsTargets, new(big.Int).Sub(ref.P, big.NewInt(j)))
+		}
+		for _, k := range []uint{64, 128, 192, 255} {
+			rhsTargets = append(rhsTargets, new(big.Int).Lsh(big.NewInt(1), k), new(big.Int).Sub(new(big.Int).Lsh(big.NewInt(1), k), big.NewInt(1)))
+		}
+		rhsTargets = append(rhsTargets, gen.DictFixed(ref.P, 8*gen.DictStride())...)
+		for i, tgt := range rhsTargets {
+			out = append(out, caseC04{P: pt.Spec{Base: pt.Base{Kind: "rhs", RHS: gen.H(tgt), Odd: i%2 == 1, Via: []string{"limbs", "comp", "limbs", "uncomp"}[i%4]}}})
+		}
 		// abscissae aimed at the constants found in the sources of the tree under test (the builder moves to the next x on the curve)
 		for i, v := range gen.DictFixed(ref.P, 2*gen.DictStride()) {
 			out = append(out, caseC04{P: pt.Spec{Base: pt.Base{Kind: "liftx", X: gen.H(v), Odd: i%2 == 1, Via: []string{"limbs", "comp", "limbs", "uncomp", "coords"}[i%5]}}})
